@@ -239,7 +239,8 @@ CHECKS["C19"] = dict(
     level_note="Which interleavings occur is left to the Go scheduler; a leak that needs a specific interleaving is found only if that interleaving happens.",
     rule="rapid draws the graph, input, paradigm, pipe capacity, laziness, read count and handler mode; non-trivial = in scope, >= 2 producers, an early close (caller, handler or prefix branch) and a graph with a branch, fan-in, nesting or fan-out; distinct = FNV-1a of case JSON",
     assumptions=GRAPH_ASSUME,
-    parts=[rapid_part("leaks", "compose", "TestC19", 400, 48000, qshards=8, replay_test="TestC19Replay", replay_reps=3)],
+    parts=[rapid_part("leaks", "compose", "TestC19", 400, 48000, qshards=8, replay_test="TestC19Replay", replay_reps=3),
+           rapid_part("react", "flow/agent/react", "TestC19React", 3000, 300000, replay_test="TestC19ReactReplay")],
 )
 
 CHECKS["C03"] = dict(
